@@ -102,6 +102,7 @@ func otherEntryPoints(t *core.T, sig, src string, want *xast.Policy) {
 	_ = used.MarshalCedar() // every accessor has been called on the receiver before it is reused
 	_, _ = used.MarshalJSON()
 	_ = used.AST()
+	_ = used.UnmarshalCedar([]byte(`@half("way") permit(principal, action, resource) when { true } unless { 1 + };`)) // a decode into it has just failed half way
 	err := used.UnmarshalCedar([]byte(src))
 	same("Policy.UnmarshalCedar(used receiver)", (*xast.Policy)(used.AST()), err)
 	var ap pa.Policy
